@@ -33,6 +33,8 @@ struct Scn {
     argv: Vec<String>,
     want_code: i32,
     want_files: BTreeMap<String, Vec<u8>>,
+    /// too many jobs for the schedule search: only part of the free-running sweep
+    sweep_only: bool,
 }
 
 fn run_once(id: usize, sc: &Scn, prefix: &[usize]) -> Result<Exec, String> {
@@ -145,9 +147,49 @@ fn scenarios(thorough: bool) -> Vec<Scn> {
                     argv,
                     want_code,
                     want_files,
+                    sweep_only: false,
                 });
             }
         }
+    }
+    // one file reachable under two names (a symbolic link) from two directories with different configurations: it is one file,
+    // processed once, with the configuration of the name met first — whatever the thread count and the schedule
+    let src = "local b = require(\"b\")\nlocal a = require(\"a\")\ndo\nx(  )\nend\n";
+    for check in [true, false] {
+        for nt in [1usize, 4] {
+            let mut tree = Tree::default();
+            tree.add("one/m.lua", src.as_bytes());
+            tree.add("one/stylua.toml", b"[sort_requires]\nenabled = true\n");
+            tree.add("two/stylua.toml", b"indent_type = \"Spaces\"\nindent_width = 3\n");
+            tree.link("two/m.lua", "../one/m.lua");
+            let mut argv: Vec<String> = vec!["--color".into(), "Never".into(), "--num-threads".into(), nt.to_string()];
+            if check {
+                argv.extend(["--check".into(), "--output-format".into(), "Summary".into()]);
+            }
+            argv.extend(["one".into(), "two".into()]);
+            let formatted = cli::lib_format(src, &crate::cfg::Cfg { sort: true, ..Default::default() }, 120).unwrap().into_bytes();
+            let content = if check { src.as_bytes().to_vec() } else { formatted };
+            let mut want_files = BTreeMap::new();
+            want_files.insert("one/m.lua".to_string(), content.clone());
+            want_files.insert("two/m.lua".to_string(), content);
+            v.push(Scn { desc: format!("C19 one-file-two-names mode={} threads={}", if check { "check" } else { "write" }, nt), tree, argv, want_code: if check { 1 } else { 0 }, want_files, sweep_only: false });
+        }
+    }
+    // many same-stem pairs x.lua / x.luau in one directory (anything two jobs might share by name); far too many jobs for the
+    // schedule search, so this one only takes part in the free-running sweep
+    if cfg!(feature = "allsyn") {
+        let pairs = if thorough { 200 } else { 60 };
+        let mut tree = Tree::default();
+        let mut want_files = BTreeMap::new();
+        for i in 0..pairs {
+            for ext in ["lua", "luau"] {
+                let text = format!("local   v{}  =  {{ {} }}\n", i, if ext == "lua" { "1,2" } else { "3,4,5" });
+                let p = format!("m{}.{}", i, ext);
+                tree.add(&p, text.as_bytes());
+                want_files.insert(p, cli::lib_format(&text, &Default::default(), 120).unwrap().into_bytes());
+            }
+        }
+        v.push(Scn { desc: format!("C19 same-stem-pairs={} mode=write", pairs), tree, argv: vec!["--color".into(), "Never".into(), "--num-threads".into(), "4".into(), ".".into()], want_code: 0, want_files, sweep_only: true });
     }
     v
 }
@@ -289,6 +331,9 @@ pub fn c19(thorough: bool, stats: &mut Stats) -> Vec<Failure> {
                 if i >= scs.len() {
                     break;
                 }
+                if scs[i].sweep_only {
+                    continue;
+                }
                 let e = explore_scenario(100000 + i, &scs[i], &bounds, cap);
                 results.lock().unwrap().push((i, e));
             });
@@ -339,7 +384,13 @@ pub fn c19(thorough: bool, stats: &mut Stats) -> Vec<Failure> {
     let sweep_next = AtomicUsize::new(0);
     let sweep_fails: Mutex<Vec<Failure>> = Mutex::new(vec![]);
     let sweep_runs = AtomicUsize::new(0);
-    let jobs: Vec<(usize, usize, usize)> = (0..scs.len()).filter(|i| thorough || i % 4 == 0).flat_map(|i| (1..=16usize).flat_map(move |nt| (0..reps).map(move |r| (i, nt, r)))).collect();
+    let jobs: Vec<(usize, usize, usize)> = (0..scs.len())
+        .filter(|i| thorough || i % 4 == 0 || scs[*i].sweep_only || scs[*i].desc.contains("one-file-two-names"))
+        .flat_map(|i| {
+            let r = if scs[i].sweep_only { reps * 3 } else { reps };
+            (1..=16usize).flat_map(move |nt| (0..r).map(move |r| (i, nt, r)))
+        })
+        .collect();
     std::thread::scope(|s| {
         for _ in 0..threads {
             s.spawn(|| loop {
@@ -356,7 +407,7 @@ pub fn c19(thorough: bool, stats: &mut Stats) -> Vec<Failure> {
                 let o = cli::execute(500000 + k, &sc.tree, &Run { argv, ..Run::default() });
                 let mut files = BTreeMap::new();
                 for (p, v) in &o.after {
-                    if p.ends_with(".lua") {
+                    if p.ends_with(".lua") || p.ends_with(".luau") {
                         files.insert(p.clone(), v.0.clone());
                     }
                 }
